@@ -409,6 +409,7 @@ type Contract struct {
 	Line     int
 	MayPanic bool
 	NoAlloc  bool // extern only (assumed): the callee allocates nothing the caller can reach, so heaps outside its modifies clause keep their version
+	AbsCur   bool // a function of package store that only uses the Cursor interface: verified with Cursor abstract (the view of package exec)
 	NonRec   bool // structural obligation: the function is not part of a call cycle (stack use does not depend on the input)
 	Asserts  []Clause // lemma hints: assumed-after-proved facts at function entry
 	Hints    map[string][]Clause // "callee#k" -> facts proved (then assumed) just before that call
@@ -418,7 +419,7 @@ type Contract struct {
 var clauseKeywords = map[string]bool{
 	"func": true, "extern": true, "property": true, "uses": true, "requires": true, "ensures": true,
 	"modifies": true, "decreases": true, "loop": true, "invariant": true, "trusted": true, "pure": true,
-	"maypanic": true, "nonrecursive": true, "noalloc": true, "lemma": true, "hint": true, "hintafter": true,
+	"maypanic": true, "nonrecursive": true, "noalloc": true, "abstractcursor": true, "lemma": true, "hint": true, "hintafter": true,
 }
 
 // parseContractFile reads //@ lines.
@@ -477,6 +478,8 @@ func parseContractFile(path, pkg, text string) ([]*Contract, error) {
 			cur.MayPanic = true
 		case "nonrecursive":
 			cur.NonRec = true
+		case "abstractcursor":
+			cur.AbsCur = true
 		case "noalloc":
 			if !cur.Extern {
 				return fmt.Errorf("%s: noalloc is only accepted on extern contracts", cur.Name)
